@@ -75,3 +75,17 @@ Theorem C14_emulation_refines :
       ok_world w' /\ same_data (snd (rename_abs (fun _ => FNone) s old new)) (s_peer sstate w').
 Proof. exact RenameData.rename_emulated_refines. Qed.
 Print Assumptions C14_emulation_refines.
+
+(* the same against any abstract state agreeing with the server on its data; the client keeps its session fields
+   (authenticated, capabilities), so the emulation composes into whole sessions (C15_session_refines_spec) *)
+Theorem C14_emulation_refines_in_sessions :
+  forall F old new st (w : sworld sstate) s,
+    c_auth st = true -> has_cap (bs "VERSION") st = false -> ok_world w -> same_data s (s_peer sstate w) ->
+    names_ok s -> length (s_store s) < F -> 3 <= F ->
+    exists out w',
+      interp_s sstate srv_react srv_connect srv_tls (renamescript F old new st finish) w = (out, w') /\
+      aresult_of out = Some (fst (rename_abs (fun _ => FNone) s old new)) /\
+      ok_world w' /\ same_data (snd (rename_abs (fun _ => FNone) s old new)) (s_peer sstate w') /\
+      c_auth (Session.outcome_state out) = true /\ c_caps (Session.outcome_state out) = c_caps st.
+Proof. exact RenameData.rename_emulated_refines_st. Qed.
+Print Assumptions C14_emulation_refines_in_sessions.
